@@ -14,25 +14,7 @@ import Driver.Tree
 namespace Driver
 open Gedcom Gedcom.Cache
 
-/-- preorder allocation of a decoded forest; `fam` = most recent FAM record seen (the decoder's
-    `family` cursor) -/
-partial def allocNode (n : Node) (st : List NodeRec × Id) : (List NodeRec × Id) × Id :=
-  match n with
-  | .mk t v p ks =>
-    let (heap, fam) := st
-    let id := heap.length
-    let fam := if t == tFAM then id else fam
-    let heap := heap ++ [⟨t, v, p, [], fam⟩]
-    let (st, kids) := ks.foldl (fun (acc : (List NodeRec × Id) × List Id) k =>
-      let (st, id) := allocNode k acc.1
-      (st, acc.2 ++ [id])) ((heap, fam), [])
-    ((setKids st.1 id kids, st.2), id)
-
-def initOfForest (f : Forest) : St :=
-  let (st, roots) := f.foldl (fun (acc : (List NodeRec × Id) × List Id) k =>
-    let (st, id) := allocNode k acc.1
-    (st, acc.2 ++ [id])) (([], 0), [])
-  initOf st.1 roots
+def initOfForest (f : Forest) : St := ofForest f
 
 partial def pathsGo (a : Abs) (arr : Array (Option String)) (n : Id) (path : String) (fuel : Nat) :
     Array (Option String) :=
@@ -142,6 +124,12 @@ def runOp (fl : Flags) (s : St) (toks : List String) : St × String :=
     | none => noNode s
   match toks with
   | ["dump"] => runDump fl s
+  | ["rebuild"] =>
+    -- the conclusion of `views_fresh_decode`, evaluated: every view of the live state, rendered by
+    -- position, against the same views of the state rebuilt from the forest the text encodes
+    let live := (runDump fl s).2
+    let fresh := (runDump fl (ofForest (toForest (abs s)))).2
+    (s, if live == fresh then "r=1" else "r=0")
   | ["warn"] => stepShow .warnings
   | ["foreign"] => stepShow .foreign
   | ["inert"] => stepShow .inert
